@@ -63,6 +63,8 @@ pub fn check(tier: Tier) -> Check {
     // a QoS 2 publish abandoned before its PUBREC: the exchange stays open on the server's side, so its
     // slot must not be handed out again on a successful PUBREC (only a failing one ends it)
     parts.push(Part::new("C10/abandoned", json!({}), 0, 60));
+    // a publish abandoned while its request is still queued: sent all the same, one slot, freed by its late acknowledgement
+    parts.push(Part::new("C10/abandoned-queued", json!({}), 0, 60));
     // two open exchanges under one identifier value (the counter rewound by the hook): two slots
     parts.push(Part::new("C10/same-id", json!({}), 0, 60));
     parts.push(Part::new("C10/fill", json!({"r": 65535}), 0, 120));
@@ -217,6 +219,9 @@ fn same_id(name: String, params: Value) -> Scenario {
 }
 
 pub fn scenario(name: &str, params: &Value) -> Scenario {
+    if name == "C10/abandoned-queued" {
+        return super::c15::abandoned_queued("C10", name.to_string(), params.clone());
+    }
     if name == "C10/same-id" {
         return same_id(name.to_string(), params.clone());
     }
